@@ -3,7 +3,7 @@ CONSTANTS
   MaxMsgs = 3
   MaxIds = 4
   MaxK = 2
-  MaxQueue = 3
+  MaxQueue = 2
 INIT Init
 NEXT Next
 CONSTRAINT Bounded
